@@ -321,7 +321,7 @@ def r3_lattice(repo: Repo, rep):
     rep.saw(fi)
     for p in paths(fi.node):
         if p.ret is not RAISE:
-            rep.check(R, dump(p.ret) == "self.domain_a.bounding_box(params, device=device)", fi.site(), fi.fq, "box(A \\\\ B) = box(A)", dump(p.ret), dump(p.ret))
+            rep.check(R, dump(p.ret) == "self.domain_a.bounding_box(params, device)", fi.site(), fi.fq, "box(A \\\\ B) = box(A)", dump(p.ret), dump(p.ret))
     ci = repo.cls(f"{ops}.product.ProductDomain")
     fi = ci.methods.get("bounding_box")
     rep.saw(fi)
